@@ -564,5 +564,8 @@ func eq(a, b string) string {
 	if a == b {
 		return "true"
 	}
+	if strings.HasPrefix(a, "(_ bv") && strings.HasPrefix(b, "(_ bv") && !strings.Contains(a[1:], "(") && !strings.Contains(b[1:], "(") {
+		return "false" // two different bitvector literals
+	}
 	return "(= " + a + " " + b + ")"
 }
